@@ -648,7 +648,7 @@ func (fr *Frame) execIndexAddr(x *ssa.IndexAddr, st *State) error {
 		s := fr.term(x.X, st)
 		fr.safetyOb("index", "", and(c.le(z, i), c.lt(i, c.slLen(s))), x.Pos(), "slice index in range")
 		idx := c.sc.define("ix", c.add(c.slOff(s), i))
-		fr.env[x] = &Val{L: &LVal{kind: rkElems, ref: slPtr(s), rootT: t.Elem(), typ: t.Elem(), path: []pathStep{{idx: &idx, inT: t.Elem()}}}}
+		fr.env[x] = &Val{L: &LVal{kind: rkElems, ref: slPtr(s), rootT: t.Elem(), typ: t.Elem(), path: []pathStep{{idx: &idx, inT: t.Elem(), isElem: true}}}}
 	case *types.Pointer: // pointer to array
 		arr := t.Elem().Underlying().(*types.Array)
 		base := fr.addrOf(x.X, st)
@@ -656,7 +656,7 @@ func (fr *Frame) execIndexAddr(x *ssa.IndexAddr, st *State) error {
 		fr.safetyOb("index", "", and(c.le(z, i), c.lt(i, c.sc.idxLit(arr.Len()))), x.Pos(), "array index in range")
 		idx := c.sc.define("ix", i)
 		if base.kind == rkElems && len(base.path) == 0 {
-			fr.env[x] = &Val{L: &LVal{kind: rkElems, ref: base.ref, rootT: arr.Elem(), typ: arr.Elem(), path: []pathStep{{idx: &idx, inT: arr.Elem()}}}}
+			fr.env[x] = &Val{L: &LVal{kind: rkElems, ref: base.ref, rootT: arr.Elem(), typ: arr.Elem(), path: []pathStep{{idx: &idx, inT: arr.Elem(), isElem: true}}}}
 		} else {
 			fr.env[x] = &Val{L: extend(base, pathStep{idx: &idx, inT: t.Elem()}, arr.Elem())}
 		}
